@@ -15,7 +15,10 @@ use std::net::SocketAddr;
 
 pub struct C06;
 
-fn norm(_e: &mut Value, o: &mut Value) { um::canonicalise(o); }
+fn norm(e: &mut Value, o: &mut Value) {
+    um::canonicalise(e);
+    um::canonicalise(o);
+}
 
 /// `sweep`: Some((position, length byte)) forces the string at that position
 /// (0 name, 1 map, 2 game type, 3 first player name, 4 first rule value) to
@@ -24,7 +27,7 @@ pub fn build(mut t: Tape, sweep: Option<(u8, u8)>) -> Built {
     let via_game = t.draw(CFG, 5) == 0;
     let (gather, entry, default_port) = if via_game {
         let i = t.draw(CFG, UNREAL2_GAMES.len() as u64) as usize;
-        (GatheringSettings::default(), Entry::Unreal2Game(i), UNREAL2_GAMES[i].port)
+        (GatheringSettings::default(), Entry::Unreal2Game(i), crate::golden::module_port(UNREAL2_GAMES[i].module, UNREAL2_GAMES[i].port))
     } else {
         let g = match t.draw(CFG, 3) {
             0 => GatheringSettings::default(),
@@ -46,8 +49,8 @@ pub fn build(mut t: Tape, sweep: Option<(u8, u8)>) -> Built {
         // the counted length includes the trailing NUL when the string is not empty
         let units = counted.saturating_sub(1);
         let mut s = um::gen_ustr(&mut t, ucs2, Some(units), 126);
-        s.trailing_nul = counted > 0;
-        if ucs2 && counted == 0 {
+        s.trailing_nul = counted > 0 || ucs2;
+        if ucs2 && counted <= 1 {
             s.stray_one = false;
         }
         match pos {
@@ -132,6 +135,7 @@ impl Prop for C06 {
             "Latin-1 strings use printable ASCII, 0xa0-0xff, control codes 0x01-0x1a and ESC sequences; 0x7f-0x9f are not generated (Latin-1 and Windows-1252 differ there)".into(),
             "num_players in the server info is at least the number of listed players".into(),
             "the greedy receive loops end on a simulated read timeout".into(),
+            "the UCS-2 length byte 0x80 (empty, no NUL unit) is sent as 0x81 + NUL: a bare 0x80 followed by a 0x01 byte of the next field is inherently ambiguous with the stray-0x01 quirk".into(),
         ]
     }
 
